@@ -169,6 +169,19 @@ pub fn c20(out: &mut Vec<String>, rng: &mut Rng, tier: &str) {
             });
         }
     }
+    // intervals the API itself returns with an unusual shape: a relative interval against a reference that
+    // straddles zero has its bounds in decreasing order; infinite bounds; degenerate intervals
+    for (a, b, c, d) in [(1.0f64, 2.0f64, -1.0f64, 2.0f64), (0.5, 4.0, -3.0, 0.25), (2.0, 2.0, -1.0, 1.0)] {
+        let iv = Interval::new(a, b).unwrap().relative_to(&Interval::new(c, d).unwrap());
+        let v = serde_json::to_value(&iv).unwrap();
+        let (flags, _) = roundtrips(&iv);
+        out.push(format!("C20 serint f {} => {} | {}", enc_interval(&iv), tree::<f64>(&v), flags));
+    }
+    for iv in [Interval::new(3.0f64, 3.0).unwrap(), Interval::new(-0.0f64, 0.0).unwrap(), Interval::new_upper(-2.5f64), Interval::new_lower(1e300f64)] {
+        let v = serde_json::to_value(&iv).unwrap();
+        let (flags, _) = roundtrips(&iv);
+        out.push(format!("C20 serint f {} => {} | {}", enc_interval(&iv), tree::<f64>(&v), flags));
+    }
     for i in 0..reps {
         let conf = crate::gen::rand_conf(rng);
         let m = if i % 8 == 0 { 150 } else { 30 };
